@@ -166,6 +166,65 @@ def build_case(r, art, k, stream):
     return flat, len(opids), len(init)
 
 
+CONTROL = ("WHILE", "IF", "CALL_ONCE", "CALL")
+W_FAMS = ["mixed_cpu", "multi_custom", "ew_dag", "diamond", "multi_input", "mixed_cpu", "conv_chain", "single"]
+
+
+def build_inference_case(r, art):
+    """the operator sequence of the output model over its tensor arena (hw/Inference.v): flat case, number of operators"""
+    s = art["summary"]
+    if len(s["subgraphs"]) != 1 or any(op["opcode"] in CONTROL for g in s["subgraphs"] for op in g["operators"]):
+        raise Unsupported("whole inference: control flow / several subgraphs")
+    g = s["subgraphs"][0]
+    alloc = tflsum.offline_allocation(s)
+    if not alloc:
+        raise Unsupported("whole inference: no offline allocation in the file")
+
+    def rng(ti):
+        if ti < 0:
+            return None
+        t = g["tensors"][ti]
+        if t["data_len"]:
+            return None                       # constants live in their own buffers
+        off = alloc["offsets"][ti] if ti < len(alloc["offsets"]) else -1
+        n = 1
+        for d in t["shape"]:
+            n *= d
+        size = n * ELEM.get(t["type"], 1)
+        if off < 0 or size <= 0:
+            return None
+        return [off, off + size, ti + 1]
+
+    def segs(tis):
+        out = []
+        for ti in tis:
+            x = rng(ti)
+            if x is not None and x not in out:
+                out.append(x)
+        return out
+
+    def enc(l):
+        return [len(l)] + [v for x in l for v in x]
+
+    init = segs(g["inputs"])
+    npu_iter = iter([n for n in art["npu"] if n["sg"] == 0])
+    ops = []
+    for op in g["operators"]:
+        if op["opcode"] == "CUSTOM" and op.get("custom_code") == "ethos-u":
+            n = next(npu_iter, None)
+            if n is None or n["op"] != op or n["words"] is None:
+                raise Unsupported("whole inference: custom operator without decoded stream")
+            b1 = alloc["offsets"][op["inputs"][2]]
+            if b1 < 0:
+                raise Unsupported("whole inference: scratch tensor without arena offset")
+            ops.append([1, b1, -1] + enc(segs(op["inputs"][4:])) + enc(segs(op["outputs"])) + [len(n["words"])] + list(n["words"]))
+        else:
+            ops.append([0] + enc(segs(op["inputs"])) + enc(segs(op["outputs"])))
+    ops.append([0] + enc(segs(g["outputs"])) + [0])
+    hw = artefacts.hw_args(r["job"])
+    return hw + enc(init) + [len(ops)] + [v for o in ops for v in o], len(ops)
+
+
 def run(tier):
     res = vlib.Result("C03", tier, "translation_validation")
     b = vlib.build_property("C03")
@@ -181,7 +240,10 @@ def run(tier):
         jobs.append({"family": "narrowing_chain", "seed": "c03n-%d-%d" % (vlib.seed(), rep),
                      "args": ["--accelerator-config", ["ethos-u55-128", "ethos-u55-256", "ethos-u65-256"][rep % 3], "--arena-cache-size",
                               str([80000, 90000, 75000, 85000, 100000, 60000][rep % 6])], "capture": True})
-    results = compiles.run_all(jobs, timeout=900)
+    # whole inference: networks in which CPU and Ethos-U operators alternate, several graph inputs, shared operands
+    wjobs = compiles.plan(W_FAMS, 48 if tier == "quick" else 1200, vlib.seed(), tag="c03w", capture=False)
+    results = compiles.run_all(jobs + wjobs, timeout=900)
+    wresults = results
     cases, meta = [], []
     unsupported = collections.Counter()
     for r in results:
@@ -239,8 +301,49 @@ def run(tier):
         if len(samples) < 3:
             samples.append({"net": r.get("net_name"), "ops": r.get("net_desc"), "args": r["job"]["args"][:8],
                             "npu_ops": nops, "initial_definitions": ninit, "accepted": o[1] == 1})
+    # ---- whole inference: the operator sequence of every output model over its tensor arena (hw/Inference.v)
+    wcases, wmeta = [], []
+    for r in wresults:
+        if r["status"] != "ok":
+            continue
+        art = artefacts.load(r)
+        if not art or not art["npu"]:
+            continue
+        try:
+            flat, nops_w = build_inference_case(r, art)
+        except Unsupported as ex:
+            unsupported[str(ex)] += 1
+            continue
+        wcases.append(flat)
+        wmeta.append((r, nops_w, art))
+    wouts = []
+    if okx and wcases:
+        import concurrent.futures
+        order = sorted(range(len(wcases)), key=lambda i: -len(wcases[i]))
+        with concurrent.futures.ThreadPoolExecutor(max_workers=vlib.NCPU) as ex:
+            done = list(ex.map(lambda i: models.run("check_inference", [wcases[i]])[0], order))
+        wouts = [None] * len(wcases)
+        for i, o in zip(order, done):
+            wouts[i] = o
+    inferences, top_ops_total, wrejected = 0, 0, []
+    cpu_npu_mixed = 0
+    for (r, nops_w, art), o in zip(wmeta, wouts):
+        if o[0] != 1:
+            unsupported["whole inference: stream does not decode / malformed case"] += 1
+            continue
+        inferences += 1
+        top_ops_total += nops_w
+        g0 = art["summary"]["subgraphs"][0]
+        if any(op["opcode"] != "CUSTOM" for op in g0["operators"]) and len(g0["operators"]) > 1:
+            cpu_npu_mixed += 1
+        if o[1] != 1:
+            wrejected.append((r, o, art))
     stat = collections.Counter(r["status"] for r in results)
     res.cov.update({
+        "whole_inference": {"output_models_checked": inferences, "operators_incl_final_demand": top_ops_total,
+                            "models_with_cpu_and_npu_operators": cpu_npu_mixed, "rejected": len(wrejected),
+                            "rule": "one program = one output model: its operators in file order over the arena offsets of the "
+                                    "OfflineMemoryAllocation metadata; Ethos-U operators contribute the write footprints of their streams"},
         "programs": programs, "disagreements_checked": len(rejected), "samples": samples or [{"note": "none"}],
         "npu_operations_checked": ops_total, "compile_status": dict(stat), "outside_model": dict(unsupported),
         "evaluations": len(results), "distinct_nontrivial": programs,
@@ -287,7 +390,32 @@ def run(tier):
                       dict(d, job=r["job"], stream=k,
                            replay_cmd="cd /verif && /venv/bin/python tools/vela_worker.py %s/job.json" % r["job"]["out_dir"]),
                       "C03: %s (net %s ops %s, %s)" % (why, r.get("net_name"), r.get("net_desc"), " ".join(r["job"]["args"][:2])))
-    if not rejected:
+    for r, o, art in wrejected:
+        g0 = art["summary"]["subgraphs"][0]
+        names = [t["name"] for t in g0["tensors"]]
+        d = {"operator_index": o[2]}
+        if o[2] == -2:
+            k = o[3] if len(o) > 3 else -1
+            why = "operator %d (Ethos-U): its command stream does not write every byte of its output tensors" % k
+            kind, opi = "output_not_written", k
+        else:
+            opi = o[2]
+            if len(o) >= 8:
+                d["demanded"] = {"lo": o[4], "hi": o[5], "tensor": names[o[6] - 1] if 0 < o[6] <= len(names) else o[6]}
+            if len(o) >= 12:
+                fo = o[10]
+                d.update({"first_bad_address": o[8], "defined": bool(o[9]),
+                          "found": (names[fo - 1] if 0 < fo <= len(names) else "scratch of Ethos-U operator %d" % (-fo - 1))})
+            kind = "inference_undefined" if len(o) >= 10 and not o[9] else "inference_stale"
+            opn = g0["operators"][opi]["opcode"] if opi < len(g0["operators"]) else "(network outputs)"
+            why = "operator %d (%s) of the output model reads tensor %s whose bytes %s" % (
+                opi, opn, (d.get("demanded") or {}).get("tensor"),
+                "were never defined" if kind == "inference_undefined" else "were overwritten by %s since their definition" % d.get("found"))
+        res.violation({"kind": kind, "net": r.get("net_name"), "seed": r["job"]["seed"]},
+                      dict(d, job=r["job"], operators=[(op["opcode"], op["inputs"], op["outputs"]) for op in g0["operators"]],
+                           replay_cmd="cd /verif && /venv/bin/python tools/vela_worker.py %s/job.json" % r["job"]["out_dir"]),
+                      "C03: %s (net %s ops %s, %s)" % (why, r.get("net_name"), r.get("net_desc"), " ".join(r["job"]["args"][:2])))
+    if not rejected and not wrejected:
         if not b["ok"]:
             vlib.report_broken_build(res, b, None)
         elif not okx or programs == 0:
